@@ -33,6 +33,7 @@ type C11Case struct {
 	Undefined bool      `json:"undefined,omitempty"` // AllowUndefinedVariable: names not covered by Pre/Steps stay unregistered
 	Vals      []m.V     `json:"vals"`                // bound value per name, any supported raw type
 	Probe     []int     `json:"probe"`               // indexes of names evaluated one by one
+	Extra     []m.V     `json:"extra,omitempty"`     // bindings for names the config never registered (x0, x1, ...): must be ignored
 }
 
 var keyPool = []int{-32768, -3, -2, -1, 0, 1, 2, 3, 250, 251, 252, 253, 254, 255, 256, 257, 258, 259, 260, 32760, 32761, 32765, 32766, 32767}
@@ -188,6 +189,9 @@ func genC11(t *rapid.T) C11Case {
 			}
 		}
 	}
+	for i, ne := 0, rapid.IntRange(0, 3).Draw(t, "nextra"); i < ne; i++ {
+		c.Extra = append(c.Extra, m.V{X: genRawValue(t)})
+	}
 	np := min(n, 3)
 	c.Probe = rapid.SliceOfNDistinct(rapid.IntRange(0, n-1), np, np, rapid.ID[int]).Draw(t, "probe")
 	return c
@@ -277,6 +281,9 @@ func checkC11(c C11Case, r *Rec) *Violation {
 	for i, n := range c.Names {
 		vals[n] = c.Vals[i].X
 		want[i] = normalise(c.Vals[i].X)
+	}
+	for i, x := range c.Extra {
+		vals[fmt.Sprintf("x%d", i)] = x.X
 	}
 	var ctx *eval.Ctx
 	if o := Safe(func() (eval.Value, error) { ctx = eval.NewCtxFromVars(cc, vals); return nil, nil }); o.Panic != nil {
